@@ -1,16 +1,10 @@
-"""Per-property MANIFEST metadata; tools/mkmanifest.py turns this into /verif/MANIFEST.json."""
+"""Per-property MANIFEST metadata lives in vlib/reg/Cxx.json (keys: text, note, technique, design_ref);
+tools/mkmanifest.py turns it into /verif/MANIFEST.json."""
+import json
+import os
 
 REG = {}
-
-REG['C16'] = dict(
-    text=("Coq theorems, for every kernel, every local sizes Nu,Nv, every thread count k>=1 (also k>Nu*Nv) and EVERY interleaving "
-          "of the workers' kernel invocations: the output array equals the serial loop's, every pair is computed once, write sets "
-          "are disjoint. The pair list, split call, worker body, serial loop and join-before-flatten order are re-read from "
-          "bilinear_form.py on every run (fail-closed ast translator) and proved equal to the model; numpy.array_split, thread "
-          "ownership and forced interleavings of the REAL threaded assembler are corresponded with the model by vm_compute."),
-    note=("Trusted: Coq kernel+vm_compute; the ast translator and correspondence harness; CPython/NumPy memory-level safety of "
-          "concurrent writes to disjoint slices and the GIL (runtime, not modelled); schedule granularity = one kernel call. "
-          "Print Assumptions: closed under the global context for every theorem."),
-    technique="Coq proof (permutation-invariance of writes to distinct slots, induction over interleavings) + source-regenerated model + vm_compute correspondence",
-    design_ref="DESIGN.md section 5, C16",
-)
+_d = os.path.join(os.path.dirname(os.path.abspath(__file__)), 'reg')
+for _f in sorted(os.listdir(_d)):
+    if _f.endswith('.json'):
+        REG[_f[:-5]] = json.load(open(os.path.join(_d, _f)))
